@@ -164,6 +164,7 @@ def run(ctx):
             raise core.MachineryError(f"harness encoder disagrees with XorFileR.Stage on {row['plain']}")
     rng = random.Random(ctx.seed * 31 + 9)
     reps = 4 if ctx.quick else 12
+    shared = io.BytesIO()
     for row in tab["detect"]:
         for rep in range(reps):
             arch = rng.choice(["x86", "x64"])
@@ -188,7 +189,17 @@ def run(ctx):
             data = xorenc.stage(stub, nn, content, trailing)
             # maxrange bounds the search for the nonce offset only: any value that covers the stub must give the same answer
             mr = None if rep % 2 == 0 else len(stub) + rng.choice([8, 16, 100])
-            out = core.outcome(lambda: XF.from_file(io.BytesIO(data)) if mr is None else XF.from_file(io.BytesIO(data), maxrange=mr))
+            # every other repetition re-uses one file object for all stages (rewound, truncated, rewritten): detection depends on
+            # the content, not on what the object held before
+            if rep % 4 >= 2:
+                shared.seek(0)
+                shared.truncate()
+                shared.write(data)
+                shared.seek(0)
+                under_ = shared
+            else:
+                under_ = io.BytesIO(data)
+            out = core.outcome(lambda: XF.from_file(under_) if mr is None else XF.from_file(under_, maxrange=mr))
             ctx.evaluations += 1
             exp = row["expect"]
             got = None
@@ -214,6 +225,35 @@ def run(ctx):
                     {"got": got or out, "stub_len": len(stub), "content_len": len(content), "trailing": len(trailing), "nonce": L(nn), "maxrange": mr},
                 )
             ctx.count_distinct(("detect", row["stub"], row["sizeok"], row["content"], rep))
+    # a decoy inside the encoded image: FF FF FF followed by two dwords whose XOR is the number of bytes that follow - a spot
+    # both detection methods agree on, behind the true header (which only the marker finds because bytes trail the stage).
+    # The decoy decodes to no PE image, so the true header must still be found.
+    for rep in range(6 if ctx.quick else 60):
+        img, _ = refpe.build_pe(arch=rng.choice(["x86", "x64"]), e_lfanew=rng.choice([0x80, 0xF8, 0x100]), n_sections=2)
+        img = bytes(img)
+        nn = bytes(rng.randrange(1, 255) for _ in range(4))
+        stub = bytes(rng.choice([0x90, 0xCC, 0x41]) for _ in range(rng.choice([0, 5, 60]))) + b"\xff\xff\xff"
+        trailing = bytes(rng.randrange(256) for _ in range(rng.choice([1, 4, 100])))
+        enc = xorenc.encode(img, nn)
+        r0 = 0x20
+        filesize = len(stub) + 8 + len(enc) + len(trailing)
+        q = len(stub) + 8 + r0 + 3
+        dn = bytes(rng.randrange(256) for _ in range(4))
+        ds = bytes(a ^ b for a, b in zip(dn, struct.pack("<I", filesize - q - 8)))
+        new_enc = enc[:r0] + b"\xff\xff\xff" + dn + ds + enc[r0 + 11 :]
+        plain2 = xorenc.decode(new_enc, nn)
+        if plain2[0x3C:0x40] != img[0x3C:0x40] or plain2[:2] != img[:2] or b"\xff\xff\xff" in new_enc[: r0] or new_enc.count(b"\xff\xff\xff", 0, 1024) != 1:
+            continue
+        sizefield = bytes(a ^ b for a, b in zip(struct.pack("<I", len(plain2)), nn))
+        data = stub + nn + sizefield + new_enc + trailing
+        out = core.outcome(lambda: XF.from_file(io.BytesIO(data)))
+        ctx.evaluations += 1
+        good = out[0] == "ok" and out[1].nonce_offset == len(stub) and core.outcome(lambda: (out[1].seek(0), out[1].read(len(plain2)))[1]) == ("ok", plain2)
+        if not good:
+            ctx.violation("XorEncodedFile.from_file disagrees with XorFileR.DetectExpect",
+                          {"op": "XorEncodedFile.from_file", "expect": "found", "stub": "marker_and_decoy_in_image", "sizeok": False, "got_kind": out[0] if out[0] != "ok" else "other_offset"},
+                          {"got": str(out)[:200] if out[0] != "ok" else out[1].nonce_offset, "stub_len": len(stub), "decoy_offset": q})
+        ctx.count_distinct(("decoy", rep))
     ctx.sample({"detect_row": tab["detect"][0]})
     # inputs that are not XorEncoded at all
     plain_pe, _ = refpe.build_pe()
